@@ -105,4 +105,13 @@ theorem C05_prefix (s : Fw σ) (h₁ h₂ : List Call) :
     (runActions ρ s (h₁ ++ h₂)).take h₁.length = runActions ρ s h₁ := by
   rw [C05_clone_actions, List.take_left' (C05_one_result_per_call ρ s h₁)]
 
+/-- A call that reports no event, on a framework with no signal pending (the state in which
+    every call leaves it in the Rust code), returns no action at all, whatever the previous
+    call left in the slots: an action is returned only by the call whose events caused it. -/
+theorem C05_empty_call_returns_nothing (t : Int) (s : Fw σ) (h : s.signalPending = none) :
+    (triggerEvents ρ [] t s).actionsOut = [] := by
+  have hp : (s.callStart t).signalPending = none := by simpa [Fw.callStart] using h
+  simp only [triggerEvents, List.foldl_nil, signalRound, hp]
+  simp [Fw.actionsOut, Fw.callStart, List.filterMap_map]
+
 end Mb.C05
